@@ -8,6 +8,7 @@ import (
 	"strings"
 
 	"github.com/avfs/avfs"
+	"github.com/avfs/avfs/idm/memidm"
 	"github.com/avfs/avfs/vfs/memfs"
 
 	"verif/internal/fsx"
@@ -104,10 +105,35 @@ func c17Inner(err error) string {
 // c17Construction checks what a freshly constructed file system of each type reports.
 func c17Construction(c *rt.Ctx) {
 	for _, fsType := range []string{"MemFS", "OrefaFS"} {
-		for _, osType := range []avfs.OSType{avfs.OsLinux, avfs.OsWindows} {
+		for vi, osType := range []avfs.OSType{avfs.OsLinux, avfs.OsWindows, avfs.OsLinux, avfs.OsWindows, avfs.OsLinux, avfs.OsWindows, avfs.OsLinux, avfs.OsWindows} {
 			fsx.BeginCall()
 			v, _ := c05New(fsType, osType)
 			tag := fsType + "/" + osType.String()
+			// the type asked of the constructor is the type of the file system, whatever identity manager it is given:
+			// one of the other OS type, one of the same type, the one that implements nothing
+			full := vi < 2
+			if !full {
+				if fsType != "MemFS" {
+					continue
+				}
+				other := avfs.OsWindows
+				if osType == avfs.OsWindows {
+					other = avfs.OsLinux
+				}
+				var idm avfs.IdentityMgr
+				switch vi / 2 {
+				case 1:
+					idm = memidm.NewWithOptions(&memidm.Options{OSType: other})
+					tag += "+idm-of-other-type"
+				case 2:
+					idm = memidm.NewWithOptions(&memidm.Options{OSType: osType})
+					tag += "+idm-of-same-type"
+				default:
+					idm = avfs.NotImplementedIdm
+					tag += "+not-implemented-idm"
+				}
+				v = memfs.NewWithOptions(&memfs.Options{OSType: osType, Idm: idm})
+			}
 			c.Rep.Case(tag+"|construction", true)
 			bad := func(what string) {
 				c.Disagree(tag+"|construction|"+firstWords(what), fmt.Sprintf("%s created with OSType %s: %s", fsType, osType, what), map[string]any{"fs": fsType, "os": osType.String()})
@@ -137,6 +163,9 @@ func c17Construction(c *rt.Ctx) {
 			}
 			if osType == avfs.OsWindows && v.IsAbs("/a/b") {
 				bad("IsAbs(\"/a/b\") is true on a Windows-typed file system")
+			}
+			if !full {
+				continue
 			}
 			// the Linux-typed sibling creates its TempDir() among the system directories (C01 compares it with the kernel's
 			// /tmp): Stat(TempDir()) is a portable call the Windows-typed one has to agree on
